@@ -249,6 +249,9 @@ func judge(ctx *Ctx, res *Result, drv *Nadrv, c *Case, o *WOutcome, base *WOutco
 		hClean, hNoProbe = hf[0] == "1", hf[1] == "1"
 	}
 	switch {
+	case len(c.Special) > 0:
+		res.Count("theorem-domain:fault-injection (guard theorems only)")
+		hClean = false
 	case hClean && hNoProbe:
 		res.Count("theorem-domain:inside")
 	case hClean:
@@ -325,6 +328,9 @@ func judge(ctx *Ctx, res *Result, drv *Nadrv, c *Case, o *WOutcome, base *WOutco
 	}
 	// rearm_on_one_minute: every send whose answer carried a 1:00 banner is followed by exactly one re-arm
 	for i, ch := range o.Changes {
+		if len(c.Special) > 0 {
+			break
+		}
 		halves := strings.Split(ch, "\n")
 		one := -1
 		for h, l := range halves {
@@ -358,15 +364,19 @@ func judge(ctx *Ctx, res *Result, drv *Nadrv, c *Case, o *WOutcome, base *WOutco
 			want = 1
 		}
 		if got != want {
-			pred := "rearm_mismatch"
-			if want == 1 && got == 0 && len(halves) == 2 && one == 0 {
-				pred = "one_minute_banner_in_first_half_of_joined_line_not_rearmed"
+			sig := map[string]any{"pred": "rearm_mismatch"}
+			if p := probing(halves[0], c.Behav[halves[0]]); len(halves) == 2 && p != "" {
+				// the probe of the first half consumed (part of) the answer to the second half, banner included
+				sig = map[string]any{"pred": "fresh_prompt_probe_swallows_reply_of_second_half", "form": p}
+			} else if want == 1 && got == 0 && len(halves) == 2 && one == 0 {
+				sig = map[string]any{"pred": "one_minute_banner_in_first_half_of_joined_line_not_rearmed"}
 			}
-			res.Fail(map[string]any{"pred": pred}, fmt.Sprintf("send %d: %d re-arm exchange(s), expected %d", i, got, want), in)
+			res.Fail(sig, fmt.Sprintf("send %d: %d re-arm exchange(s), expected %d", i, got, want), in)
 		}
 	}
-	// banner_invariant: same outcome as the banner-free run of the real code
-	if base != nil {
+	// banner_invariant: same outcome as the banner-free run of the real code (scripted device
+	// without injected faults: the domain of the theorem)
+	if base != nil && len(c.Special) == 0 {
 		bls, _ := applyLines(base.Lines)
 		same := base.Status == o.Status &&
 			strings.Join(dropRearm(ls), "|") == strings.Join(dropRearm(bls), "|") &&
